@@ -44,7 +44,8 @@ LEVEL = "fault_enumeration"
 RULE = ("Hypothesis-generated fault scripts (write faults on the 1st/2nd/3rd write of a frame, resets, refusals, connect "
         "latencies, clock advances placed relative to the tracked message's deadline) at socket and API level; every frame "
         "start on the wire is attributed to a submitted message by its header bytes.  Non-trivial: a fault hit a write of a "
-        "tracked message or it was accepted while the link was down; distinct by script")
+        "tracked message or it was accepted while the link was down; distinct by script"
+        " Also: reconnection at the original deadline after a delayed write failure, outages as long as the stock lifetimes, a flush stalled by back-pressure, console-pushed error codes, zone / AC set-point commands.")
 ASSUMPTIONS = ["a write that fails (injected fault) transmits nothing; bytes of later writes of that frame are dropped by the transport",
                "retry classes of public commands follow the table in docs/design.md (idempotent 2/30 s, non-idempotent 0/30 s, connected 0/1 s)"]
 
